@@ -3,7 +3,7 @@
 followed by all 19 quick checks on each copy.  Every check must stay silent (rc 0) on every copy: a non-zero rc is a defect
 of the checks (brittleness against the spelling of the code), never of the code.
 
-    tools/mechanical.py [kind ...]        kinds: unparse locals invert splitand methods attrs flags whiletrue guard ternary augassign format percent continue elsereturn flipcmp hoist match walrus tryelse bindmethods chained nextfind static indexloop aliasinit effectcomp isinsplit strconcat   (default: all)
+    tools/mechanical.py [kind ...]        kinds: unparse locals invert splitand methods attrs flags whiletrue guard ternary augassign format percent continue elsereturn flipcmp hoist match walrus tryelse bindmethods chained nextfind static indexloop aliasinit effectcomp isinsplit strconcat notcmp demorgan returnnone kwargs   (default: all)
 
 Not a registered check: it exercises the checks, it decides no property."""
 import ast, os, shutil, subprocess, sys, tempfile, builtins
@@ -533,6 +533,56 @@ class StrConcat(ast.NodeTransformer):
         return e
 
 
+
+class NotCmp(ast.NodeTransformer):
+    """a != b -> not a == b ;  a not in b -> not a in b ;  a is not b -> not a is b"""
+
+    def visit_Compare(self, n):
+        self.generic_visit(n)
+        if len(n.ops) == 1 and isinstance(n.ops[0], (ast.NotEq, ast.NotIn, ast.IsNot)):
+            pos = {ast.NotEq: ast.Eq, ast.NotIn: ast.In, ast.IsNot: ast.Is}[type(n.ops[0])]()
+            return ast.UnaryOp(op=ast.Not(), operand=ast.Compare(left=n.left, ops=[pos], comparators=n.comparators))
+        return n
+
+
+class DeMorgan(ast.NodeTransformer):
+    """if a or b:  ->  if not (not a and not b):      (tests of if statements only)"""
+
+    def visit_If(self, n):
+        self.generic_visit(n)
+        if isinstance(n.test, ast.BoolOp) and isinstance(n.test.op, ast.Or):
+            n.test = ast.UnaryOp(op=ast.Not(), operand=ast.BoolOp(op=ast.And(), values=[ast.UnaryOp(op=ast.Not(), operand=v) for v in n.test.values]))
+        return n
+
+
+class ReturnNone(ast.NodeTransformer):
+    def visit_Return(self, n):
+        if n.value is None:
+            n.value = ast.Constant(value=None)
+        return n
+
+
+class KeywordArgs(ast.NodeTransformer):
+    """self.m(a, b) -> self.m(p=a, q=b) for methods m of the same class with plain positional parameters (unique method name program wide)"""
+
+    def visit_ClassDef(self, c):
+        self.sig = {m.name: [a.arg for a in m.args.args[1:]] for m in c.body if isinstance(m, ast.FunctionDef) and not m.args.vararg and not m.args.kwarg and not m.args.posonlyargs
+                    and not m.decorator_list and m.args.args and m.args.args[0].arg == "self" and m.name in self.unique}
+        self.generic_visit(c)
+        self.sig = {}
+        return c
+
+    def visit_Call(self, n):
+        self.generic_visit(n)
+        sig = getattr(self, "sig", {})
+        if isinstance(n.func, ast.Attribute) and isinstance(n.func.value, ast.Name) and n.func.value.id == "self" and n.func.attr in sig and n.args \
+                and not any(isinstance(a, ast.Starred) for a in n.args) and len(n.args) <= len(sig[n.func.attr]) and all(k.arg for k in n.keywords):
+            names = sig[n.func.attr]
+            n.keywords = [ast.keyword(arg=names[i], value=a) for i, a in enumerate(n.args)] + n.keywords
+            n.args = []
+        return n
+
+
 def hoist_attrs(trees):
     """in every method: `self.<attr>` that is bound only in __init__ (never rebound anywhere in the program) and read at least
     twice is read once into a local at the top of the method (an alias of the same object)"""
@@ -734,6 +784,27 @@ def make(kind, dst):
                         return StrConcat().visit(x)
                     return x
             trees[p] = Only().visit(t)
+    elif kind == "notcmp":
+        for p, t in trees.items():
+            trees[p] = NotCmp().visit(t)
+    elif kind == "demorgan":
+        for p, t in trees.items():
+            trees[p] = DeMorgan().visit(t)
+    elif kind == "returnnone":
+        for p, t in trees.items():
+            trees[p] = ReturnNone().visit(t)
+    elif kind == "kwargs":
+        counts = {}
+        for t in trees.values():
+            for c in ast.walk(t):
+                if isinstance(c, ast.ClassDef):
+                    for m in c.body:
+                        if isinstance(m, ast.FunctionDef):
+                            counts[m.name] = counts.get(m.name, 0) + 1
+        ka = KeywordArgs()
+        ka.unique = {k for k, v in counts.items() if v == 1}
+        for p, t in trees.items():
+            trees[p] = ka.visit(t)
     elif kind == "hoist":
         hoist_attrs(trees)
     elif kind == "methods":
@@ -750,7 +821,7 @@ def make(kind, dst):
 
 
 def main():
-    kinds = sys.argv[1:] or ["unparse", "locals", "invert", "splitand", "methods", "attrs", "flags", "whiletrue", "guard", "ternary", "augassign", "format", "percent", "continue", "elsereturn", "flipcmp", "hoist", "match", "walrus", "tryelse", "bindmethods", "chained", "nextfind", "static", "indexloop", "aliasinit", "effectcomp", "isinsplit", "strconcat"]
+    kinds = sys.argv[1:] or ["unparse", "locals", "invert", "splitand", "methods", "attrs", "flags", "whiletrue", "guard", "ternary", "augassign", "format", "percent", "continue", "elsereturn", "flipcmp", "hoist", "match", "walrus", "tryelse", "bindmethods", "chained", "nextfind", "static", "indexloop", "aliasinit", "effectcomp", "isinsplit", "strconcat", "notcmp", "demorgan", "returnnone", "kwargs"]
     bad = 0
     for kind in kinds:
         tmp = tempfile.mkdtemp(prefix=f"pyrtma-mech-{kind}-")
